@@ -152,6 +152,14 @@ func VerifyProof(
 		return felt.Zero, nil
 	}
 
+	if proof == nil {
+		return felt.Zero, errors.New("nil proof node set")
+	}
+	// SetFelt keeps the low 251 bits only: a larger felt would be verified as another key
+	if keyFelt.Cmp(&maxKeyByHeight[globalTrieHeight]) > 0 {
+		return felt.Zero, fmt.Errorf("key %s exceeds the trie height %d", keyFelt.String(), globalTrieHeight)
+	}
+
 	var keyBits BitArray
 	keyBits.SetFelt(globalTrieHeight, keyFelt)
 	expectedHash := root
@@ -164,6 +172,19 @@ func VerifyProof(
 				"proof node not found, expected hash: %s",
 				expectedHash.String(),
 			)
+		}
+
+		switch n := proofNode.(type) {
+		case *Binary:
+			if n == nil || n.LeftHash == nil || n.RightHash == nil {
+				return felt.Zero, errors.New("malformed binary node in the proof node set")
+			}
+		case *Edge:
+			if n == nil || n.Child == nil || n.Path == nil {
+				return felt.Zero, errors.New("malformed edge node in the proof node set")
+			}
+		default:
+			return felt.Zero, fmt.Errorf("unexpected %T in the proof node set", proofNode)
 		}
 
 		// Verify the hash matches
